@@ -44,6 +44,13 @@ impl Blake2s256 {
         self.0.update(data);
     }
 
+    /// Verification hook (only with `--cfg crrl_verif`); see
+    /// `Blake2s::verif_skip_blocks()`.
+    #[cfg(crrl_verif)]
+    pub fn verif_skip_blocks(&mut self, nblocks: u64) -> bool {
+        self.0.verif_skip_blocks(nblocks)
+    }
+
     /// Finalize the current computation and get a 32-byte output.
     /// The context MUST NOT be used afterwards without first resetting it.
     #[inline(always)]
@@ -111,6 +118,13 @@ impl KeyedBlake2s {
         self.ctx.update(data);
     }
 
+    /// Verification hook (only with `--cfg crrl_verif`); see
+    /// `Blake2s::verif_skip_blocks()`.
+    #[cfg(crrl_verif)]
+    pub fn verif_skip_blocks(&mut self, nblocks: u64) -> bool {
+        self.ctx.verif_skip_blocks(nblocks)
+    }
+
     /// Reset this context.
     #[inline]
     pub fn reset(&mut self) {
@@ -172,6 +186,19 @@ impl Blake2s {
             ctr: 0,
             out_len: out_len,
         }
+    }
+
+    /// Verification hook (only with `--cfg crrl_verif`): advance the input
+    /// counter by `nblocks` whole blocks without processing any data. Does
+    /// nothing and returns `false` on a context that has not absorbed
+    /// anything yet, or that was finalized.
+    #[cfg(crrl_verif)]
+    pub fn verif_skip_blocks(&mut self, nblocks: u64) -> bool {
+        if self.ctr == 0 || self.ctr == !0u64 {
+            return false;
+        }
+        self.ctr = self.ctr.wrapping_add(nblocks << 6);
+        true
     }
 
     /// Inject some more bytes into the context.
